@@ -241,7 +241,13 @@ class Builder:
         schema = c.Schema(dynamic=True) if d.get("dynamic") else c.Schema()
         for key, f in d["fields"]:
             if f["kind"] == "method":
-                c.instance_method(schema, key)(self.function(key, f["sig"]))
+                fn = self.function(key, f["sig"])
+                if len(key) % 2 == 0:
+                    # a callable that is not a plain function (no __code__): the same signature
+                    import functools
+
+                    fn = functools.partial(fn)
+                c.instance_method(schema, key)(fn)
             else:
                 fld = self.field(f)
                 if isinstance(fld, c.Field) and len(key) % 2 == 0:
